@@ -1971,11 +1971,12 @@ namespace cds { namespace intrusive {
             {
                 rcu_lock l;
 
-                if ( !find_min_position( pos )) {
-                    m_Stat.onExtractMinFailed();
-                    pDel = nullptr;
-                }
-                else {
+                for (;;) {
+                    if ( !find_min_position( pos )) {
+                        m_Stat.onExtractMinFailed();
+                        pDel = nullptr;
+                        break;
+                    }
                     pDel = pos.pCur;
                     unsigned int const nHeight = pDel->height();
 
@@ -1983,11 +1984,9 @@ namespace cds { namespace intrusive {
                         --m_ItemCounter;
                         m_Stat.onRemoveNode( nHeight );
                         m_Stat.onExtractMinSuccess();
+                        break;
                     }
-                    else {
-                        m_Stat.onExtractMinFailed();
-                        pDel = nullptr;
-                    }
+                    m_Stat.onExtractMinRetry();
                 }
             }
 
@@ -2004,11 +2003,12 @@ namespace cds { namespace intrusive {
             {
                 rcu_lock l;
 
-                if ( !find_max_position( pos )) {
-                    m_Stat.onExtractMaxFailed();
-                    pDel = nullptr;
-                }
-                else {
+                for (;;) {
+                    if ( !find_max_position( pos )) {
+                        m_Stat.onExtractMaxFailed();
+                        pDel = nullptr;
+                        break;
+                    }
                     pDel = pos.pCur;
                     unsigned int const nHeight = pDel->height();
 
@@ -2016,11 +2016,9 @@ namespace cds { namespace intrusive {
                         --m_ItemCounter;
                         m_Stat.onRemoveNode( nHeight );
                         m_Stat.onExtractMaxSuccess();
+                        break;
                     }
-                    else {
-                        m_Stat.onExtractMaxFailed();
-                        pDel = nullptr;
-                    }
+                    m_Stat.onExtractMaxRetry();
                 }
             }
 
